@@ -171,6 +171,13 @@ func (ms *Modules) resolveIdentities() []error {
 	// Now, we want to create for all identities a view of all of their children.
 	// A child identity here means an inherited identity.
 	//
+	// The lists are built from scratch: what an earlier call of Process
+	// left in them need no longer hold (a base reached through an import
+	// may by now belong to a later revision).
+	for _, i := range ms.typeDict.identities.dict {
+		i.Identity.Values = nil
+	}
+
 	// We start by finding the direct children of all identities using the
 	// 'base' statement.
 	for _, i := range ms.typeDict.identities.dict {
